@@ -109,7 +109,7 @@ structure GrantInv (s : S) : Prop where
   chain_eq : ∀ g ∈ s.glog, g.lim < s.n ∧ g.chain = s.chain g.lim
   cur_le : ∀ x, gsum s.ticks x s.glog ≤ s.used x
   cur_eq : ∀ x, x < s.n → resets s x = true → gsum s.ticks x s.glog = s.used x
-  past : ∀ p, p < s.ticks → ∀ x, gsum p x s.glog ≤ s.cap x
+  past : s.setCaps = 0 → ∀ p, p < s.ticks → ∀ x, gsum p x s.glog ≤ s.cap x
   last_eq : ∀ x, x < s.n → resets s x = true → s.last x = if s.ticks = 0 then 0 else gsum (s.ticks - 1) x s.glog
 
 theorem GrantInv.notin {s : S} (gi : GrantInv s) (t : Tree s) : ∀ g ∈ s.glog, s.n ∉ g.chain := by
@@ -127,25 +127,25 @@ theorem grantInv_init (c : Nat) : GrantInv (init c) where
   chain_eq := by intro g hg; simp [init] at hg
   cur_le := by intro x; simp [init, gsum]
   cur_eq := by intro x _ _; simp [init, gsum]
-  past := by intro p hp; simp [init] at hp
+  past := by intro _ p hp; simp [init] at hp
   last_eq := by intro x _ _; simp [init]
 
 /-- a step that leaves the tree, the counters and the log alone -/
 theorem grantInv_same {s s' : S} (gi : GrantInv s) (h1 : s'.glog = s.glog) (h2 : s'.ticks = s.ticks) (h3 : s'.n = s.n)
     (h4 : s'.chain = s.chain) (h5 : s'.used = s.used) (h6 : s'.cap = s.cap) (h7 : s'.last = s.last)
-    (h8 : ∀ x, resets s' x = true → resets s x = true) : GrantInv s' where
+    (h8 : ∀ x, resets s' x = true → resets s x = true) (h9 : s'.setCaps = s.setCaps) : GrantInv s' where
   period_le := by rw [h1, h2]; exact gi.period_le
   chain_eq := by rw [h1, h3, h4]; exact gi.chain_eq
   cur_le := by rw [h1, h2, h5]; exact gi.cur_le
   cur_eq := by rw [h1, h2, h3, h5]; exact fun x hx hr => gi.cur_eq x hx (h8 x hr)
-  past := by rw [h1, h2, h6]; exact gi.past
+  past := by rw [h1, h2, h6, h9]; exact gi.past
   last_eq := by rw [h1, h2, h3, h7]; exact fun x hx hr => gi.last_eq x hx (h8 x hr)
 
 /-- a grant of `amt` to `l` in the current period, charged along `l`'s chain -/
 theorem grantInv_grant {s s' : S} (gi : GrantInv s) (l amt : Nat) (hl : l < s.n)
     (h1 : s'.glog = ⟨s.nextReq, l, s.chain l, amt, s.ticks⟩ :: s.glog) (h2 : s'.ticks = s.ticks) (h3 : s'.n = s.n)
     (h4 : s'.chain = s.chain) (h5 : s'.used = charge s.used (s.chain l) amt) (h6 : s'.cap = s.cap)
-    (h7 : s'.last = s.last) (h8 : ∀ x, resets s' x = resets s x) : GrantInv s' where
+    (h7 : s'.last = s.last) (h8 : ∀ x, resets s' x = resets s x) (h9 : s'.setCaps = s.setCaps) : GrantInv s' where
   period_le := by
     rw [h1, h2]; intro g hg
     rcases List.mem_cons.mp hg with h | h
@@ -167,8 +167,8 @@ theorem grantInv_grant {s s' : S} (gi : GrantInv s) (l amt : Nat) (hl : l < s.n)
     simp only [gsum_cons, charge, true_and]
     split <;> omega
   past := by
-    rw [h1, h2, h6]; intro p hp x
-    have := gi.past p hp x
+    rw [h1, h2, h6, h9]; intro hz p hp x
+    have := gi.past hz p hp x
     have hne : ¬ (s.ticks = p ∧ x ∈ s.chain l) := by omega
     simp only [gsum_cons, hne, if_false]
     omega
@@ -226,13 +226,13 @@ theorem grantInv_newChild (s : S) (p c : Nat) (t : Tree s) (gi : GrantInv s) : G
       rw [resets_newChild s p c t x hx] at hr
       exact gi.cur_eq x hx hr
   past := by
-    intro q hq x
+    intro hz q hq x
     show gsum q x s.glog ≤ upd s.cap s.n c x
     unfold upd
     split
     · rename_i h; subst h
       rw [gsum_zero_of_notin _ _ _ (gi.notin t)]; exact Nat.zero_le _
-    · exact gi.past q hq x
+    · exact gi.past hz q hq x
   last_eq := by
     intro x hx hr
     show upd s.last s.n 0 x = if s.ticks = 0 then 0 else gsum (s.ticks - 1) x s.glog
@@ -295,13 +295,14 @@ theorem grantInv_tick (s : S) (ci : CapInv s) (qo : QueueOk s) (gi : GrantInv s)
     have hr : resets s x = true := hr
     rw [gsum_append, hnew x, hue x]
     simp [hr]
-  · rw [hglog]; intro q hq x
+  · rw [hglog]; intro hz q hq x
+    have hz : s.setCaps = 0 := hz
     have hq : q < s.ticks + 1 := hq
     show gsum q x (t.grants ++ s.glog) ≤ s.cap x
     rw [gsum_append, hold q x (by omega)]
     by_cases h : q = s.ticks
-    · subst h; have := gi.cur_le x; have := ci x; omega
-    · have := gi.past q (by omega) x; omega
+    · subst h; have := gi.cur_le x; have := ci hz x; omega
+    · have := gi.past hz q (by omega) x; omega
   · rw [hglog]; intro x hx hr
     have hr : resets s x = true := hr
     show (if resets s x then s.used x else s.last x) = if s.ticks + 1 = 0 then 0 else gsum (s.ticks + 1 - 1) x (t.grants ++ s.glog)
